@@ -1,15 +1,46 @@
 import Tulz.Drv.Rb
+import Tulz.Drv.Arr
+import Tulz.Drv.Subj
+import Tulz.Drv.Obsv
+import Tulz.Drv.Router
+import Tulz.Drv.Loc
+import Tulz.Drv.PathS
+import Tulz.Drv.FileM
+import Tulz.Drv.Rwp
+import Tulz.Drv.Pool
+import Tulz.Drv.Thr
 /- `tulzdrv`: reads one operation per line, prints one canonical line per operation.
-   The first token selects the component model. -/
+   The first token selects the component model; each component owns `Tulz/Drv/<X>.lean`
+   (`State`, `init`, `step : State → List String → State × String`). -/
 open Tulz.Drv
 
 structure St where
   rb : Rb.State := Rb.init
+  arr : Arr.State := Arr.init
+  subj : Subj.State := Subj.init
+  obsv : Obsv.State := Obsv.init
+  router : Router.State := Router.init
+  loc : Loc.State := Loc.init
+  paths : PathS.State := PathS.init
+  file : FileM.State := FileM.init
+  rwp : Rwp.State := Rwp.init
+  pool : Pool.State := Pool.init
+  thr : Thr.State := Thr.init
 
 def stepLine (st : St) (line : String) : St × String :=
   match (line.trimAscii.toString.splitOn " ").filter (· ≠ "") with
   | [] => (st, "")
   | "rb" :: args => let (s, o) := Rb.step st.rb args; ({ st with rb := s }, o)
+  | "arr" :: args => let (s, o) := Arr.step st.arr args; ({ st with arr := s }, o)
+  | "subj" :: args => let (s, o) := Subj.step st.subj args; ({ st with subj := s }, o)
+  | "obsv" :: args => let (s, o) := Obsv.step st.obsv args; ({ st with obsv := s }, o)
+  | "rt" :: args => let (s, o) := Router.step st.router args; ({ st with router := s }, o)
+  | "loc" :: args => let (s, o) := Loc.step st.loc args; ({ st with loc := s }, o)
+  | "ps" :: args => let (s, o) := PathS.step st.paths args; ({ st with paths := s }, o)
+  | "file" :: args => let (s, o) := FileM.step st.file args; ({ st with file := s }, o)
+  | "rwp" :: args => let (s, o) := Rwp.step st.rwp args; ({ st with rwp := s }, o)
+  | "pool" :: args => let (s, o) := Pool.step st.pool args; ({ st with pool := s }, o)
+  | "thr" :: args => let (s, o) := Thr.step st.thr args; ({ st with thr := s }, o)
   | _ => (st, "bad-component")
 
 partial def loop (h : IO.FS.Stream) (out : IO.FS.Stream) (st : St) : IO Unit := do
